@@ -968,3 +968,122 @@ M("q-validate-match", "C16", "quiet", "src/circuit.rs",
                         return Err(CircuitError::InvalidGate(i));
                     }
                 }""", "behaviour-preserving: comparison written the other way round")
+
+# ---------------------------------------------------------------- C13 J5 (network shape)
+M("j5-stride-half", "C13", "fire J5", "src/circuit.rs",
+  """        let m = bitonic.len().next_power_of_two() / 2; // prev power of two""",
+  """        let m = bitonic.len().div_ceil(2);""", "seed C13-b: stride is half the length, not a power of two")
+M("j5-min-max-swapped", "C13", "fire J5", "src/circuit.rs",
+  """            bitonic[i] = min;
+            bitonic[i + m] = max;""",
+  """            bitonic[i] = max;
+            bitonic[i + m] = min;""", "merger sorts the wrong way round")
+M("j5-swap-on-ascending", "C13", "fire J5", "src/circuit.rs",
+  """            if !ascending {
+                mem::swap(&mut min, &mut max);""",
+  """            if ascending {
+                mem::swap(&mut min, &mut max);""", "direction flag inverted in the merger only")
+M("j5-merger-rec-flip", "C13", "fire J5", "src/circuit.rs",
+  """        self.push_bitonic_merger(bits, ascending, lower);
+        self.push_bitonic_merger(bits, ascending, upper);""",
+  """        self.push_bitonic_merger(bits, ascending, lower);
+        self.push_bitonic_merger(bits, !ascending, upper);""", "upper half merged in the opposite direction")
+M("j5-merger-rec-same-half", "C13", "fire J5", "src/circuit.rs",
+  """        self.push_bitonic_merger(bits, ascending, lower);
+        self.push_bitonic_merger(bits, ascending, upper);""",
+  """        self.push_bitonic_merger(bits, ascending, lower);
+        let _ = upper;""", "upper half never merged")
+M("j5-sorter-same-dir", "C13", "fire J5", "src/circuit.rs",
+  """            push_bitonic_sorter_inner(c, bits, !ascending, lower);""",
+  """            push_bitonic_sorter_inner(c, bits, ascending, lower);""", "both halves sorted in the same direction: input of the merger not bitonic")
+M("j5-gt-swapped", "C13", "fire J5", "src/circuit.rs",
+  """        let gt = self.push_gt_circuit(bits, x, y);
+        let mut min = vec![];""",
+  """        let gt = self.push_gt_circuit(bits, y, x);
+        let mut min = vec![];""", "2-sorter swaps when x < y")
+M("j5-return-swapped", "C13", "fire J5", "src/circuit.rs",
+  """            min.push(a);
+            max.push(b);
+        }
+        (min, max)""",
+  """            min.push(a);
+            max.push(b);
+        }
+        (max, min)""", "2-sorter returns (max, min)")
+M("j5-quiet-shift-form", "C13", "quiet", "src/circuit.rs",
+  """        let m = bitonic.len().next_power_of_two() / 2; // prev power of two""",
+  """        let len = bitonic.len();
+        let m = 1usize << (usize::BITS - 1 - (len - 1).leading_zeros());""", "behaviour-preserving: greatest power of two below len by bit tricks")
+
+# ---------------------------------------------------------------- fourth seed batch as mutants
+M("p2-snapshot-before-condition", "C02", "fire P2", "src/compile.rs",
+  """                let condition = condition.compile(prg, env, circuit);
+                let panic_before_branches = circuit.peek_panic().clone();
+""",
+  """                let panic_before_branches = circuit.peek_panic().clone();
+                let condition = condition.compile(prg, env, circuit);
+""", "seed C02-c: else branch lowered from a record saved before the condition")
+M("f6-renderer-sub", "C07", "fire F6", "src/lib.rs",
+  """            for _ in 0..col_start {
+                msg += " ";
+            }
+            for _ in col_start..col_end {
+                msg += "^";
+            }""",
+  """            msg += &" ".repeat(col_start);
+            msg += &"^".repeat(col_end - col_start);""", "seed C07-c: unordered columns subtracted in the renderer")
+M("f6-renderer-sub-guarded", "C07", "quiet", "src/lib.rs",
+  """            for _ in 0..col_start {
+                msg += " ";
+            }
+            for _ in col_start..col_end {
+                msg += "^";
+            }""",
+  """            msg += &" ".repeat(col_start);
+            if col_start < col_end {
+                msg += &"^".repeat(col_end - col_start);
+            }""", "behaviour-preserving: difference taken after comparing")
+M("u2-swapped-lookup-guarded", "C15", "fire U2", "src/circuit.rs",
+  """                BuilderGate::Xor(x, y) => self.cache.get(&BuilderGate::Xor(*y, *x)),
+                BuilderGate::And(x, y) => self.cache.get(&BuilderGate::And(*y, *x)),""",
+  """                BuilderGate::Xor(x, y) if x > y => self.cache.get(&BuilderGate::Xor(*y, *x)),
+                BuilderGate::And(x, y) if x > y => self.cache.get(&BuilderGate::And(*y, *x)),
+                _ => None,""", "seed C15-b: swapped lookup only for descending operands")
+M("t7-unify-wildcard", "C17", "fire T7", "src/check.rs",
+  """        (Type::Unsigned(UnsignedNumType::Unspecified), Type::Unsigned(ty2)) => {
+            check_or_constrain_unsigned(e1, *ty2)?;
+            Type::Unsigned(*ty2)
+        }""",
+  """        (Type::Unsigned(UnsignedNumType::Unspecified), ty2) if !matches!(e1.inner, ExprEnum::Identifier(_)) => {
+            let ty2 = ty2.clone();
+            constrain_type(e1, &ty2)?;
+            ty2
+        }""", "seed C17-c (one arm): an unsuffixed literal unifies with any type")
+M("t7-check-type-no-compare", "C17", "fire T7", "src/check.rs",
+  """    constrain_type(expr, expected)?;
+    if &expr.ty == expected {
+        Ok(())""",
+  """    constrain_type(expr, expected)?;
+    if &expr.ty == expected || matches!(expr.ty, Type::Unsigned(UnsignedNumType::Unspecified)) {
+        Ok(())""", "check_type accepts an unconstrained literal type against anything")
+M("o7-and-absorb-drops-shared", "C04", "fire O7", "src/circuit.rs",
+  """                    if x1 == y1 || x2 == y1 {
+                        return self.push_and(x, y2);""",
+  """                    if x1 == y1 {
+                        return self.push_and(x, y2);
+                    } else if x2 == y1 {
+                        return self.push_and(x1, y2);""", "seed C04-b: (p & q) & (q & r) becomes p & r")
+M("o7-and-absorb-returns-input", "C04", "fire O7", "src/circuit.rs",
+  """                    if x == y1 || x == y2 {
+                        self.gates_optimized += 1;
+                        return y;""",
+  """                    if x == y1 || x == y2 {
+                        self.gates_optimized += 1;
+                        return x;""", "x & (x & z) becomes x")
+M("o7-quiet-split-disjunction", "C04", "quiet", "src/circuit.rs",
+  """                    if x1 == y1 || x2 == y1 {
+                        return self.push_and(x, y2);""",
+  """                    if x1 == y1 {
+                        return self.push_and(x, y2);
+                    } else if x2 == y1 {
+                        return self.push_and(y2, x);""", "behaviour-preserving: disjunction split, operands commuted")
